@@ -694,7 +694,7 @@ def c09_parts(tier, seed):
     DEEP = "D1;D2;D3;D4;D5;D6;D7;D8"
     if q:
         return [
-            P("tsan-default-all", T, "sched-tsan", ["--part", "explore", "--threads", "2,3", "--bound", 0, "--scripts", "S1;S2;S3;S4;S5;S6;S7;S8;S9;S10;S11;S12;S13;S14;S15;S16;S17;S18"], workers=10, env=TSAN_ENV, require=["schedules"], deadline_frac=0.9),
+            P("tsan-default-all", T, "sched-tsan", ["--part", "explore", "--threads", "2,3", "--bound", 0, "--scripts", "S1;S2;S3;S4;S5;S6;S7;S8;S9;S10;S11;S12;S13;S14;S15;S16;S17;S18;S19"], workers=10, env=TSAN_ENV, require=["schedules"], deadline_frac=0.9),
             P("tsan-deep-default", T, "sched-tsan", ["--part", "explore", "--threads", "2", "--bound", 0, "--scripts", DEEP], workers=8, env=TSAN_ENV, require=["schedules"], deadline_frac=0.9),
             P("tsan-deep-threads3", T, "sched-tsan", ["--part", "explore", "--threads", "3", "--bound", 0, "--scripts", "D2;D3;D4;D5;D8"], workers=5, env=TSAN_ENV, require=["schedules"], deadline_frac=0.9),
             P("tsan-bound1-options", T, "sched-tsan", ["--part", "explore", "--threads", "1", "--bound", 1, "--scripts", "S14"], workers=8, env=TSAN_ENV, require=["nontrivial"], deadline_frac=0.9),
@@ -713,7 +713,7 @@ def c09_parts(tier, seed):
 
 CHECKS["C09"] = dict(
     parts=c09_parts,
-    bound=dict(quick="default schedule of all 15 control scripts and of 8 scripts with real multi-threaded searches (depth 4-5, MultiPV, node limit, tablebase generation inside the hash table, "
+    bound=dict(quick="default schedule of all control scripts (S1-S19; S16/S17 change the thread count across 6, S19 runs with Threads 6) and of 8 scripts with real multi-threaded searches (depth 4-5, MultiPV, node limit, tablebase generation inside the hash table, "
                      "ponderhit, Clear Hash / new game / thread-count change between searches, stop in mid-search) with Threads 2 (five of them also with Threads 3); delay bound 1 of S14 (Threads 1) and S2 (Threads 2); "
                      "worker pools (proof-game filter with 3 workers, hash-table clear pool) default + 12 single deviations; free-running complement: 9 scripts x Threads 4, 8",
                thorough="delay bound 1 for all 15 control scripts with Threads 2 and 3 and for two search scripts, deep scripts also with Threads 4, under the deadline (unfinished bounds are reported as exhaustive:false)"),
